@@ -10,6 +10,29 @@ sys.path.insert(0, os.path.dirname(os.path.abspath(__file__)))
 from sched_lsp import Server, make_workspace, path_uri, run_driver, ROOT  # noqa: E402
 
 
+# file names with URI-reserved characters and non-ASCII, and client-side spellings of their uris that differ from the
+# server's own `file_path_to_uri` spelling (editors percent-encode `+ ( ) @ , ; = ! '` — VS Code/Neovim style —, some
+# use lower-case hex, some leave every legal character raw)
+SPECIAL_NAMES = ["c++ init", "vec(2d)", "pkg@2", "a,b;c=d", "it's!", "h#1", "na\u00efve-\u6587", "plain"]
+SPELLINGS = ["full", "lower", "minimal"]
+_UNRESERVED = set("abcdefghijklmnopqrstuvwxyzABCDEFGHIJKLMNOPQRSTUVWXYZ0123456789-._~/")
+
+
+def spell_uri(path, mode):
+    out = []
+    for ch in path:
+        if ch in _UNRESERVED or (mode == "minimal" and ch in "+()@,;=!'"):
+            out.append(ch)
+        else:
+            hx = "".join("%%%02X" % b for b in ch.encode("utf-8"))
+            out.append(hx.lower() if mode == "lower" else hx)
+    return "file://" + "".join(out)
+
+
+def special_name(r, i):
+    return SPECIAL_NAMES[(r * 3 + i) % len(SPECIAL_NAMES)]
+
+
 def text_of(k, diag=False):
     return f"local v_{k} = undefined_g_{k}\n" if diag else f"local v_{k} = {k}\n"
 
@@ -180,9 +203,10 @@ def c27_session(rep, seed, sched_seed, bursts, long=False):
     rng = random.Random(seed * 1000003 + (sched_seed or 0))
     NDISK, NURIS = 2, 4
     files = {}
+    fname = lambda b, i: f"b{b}_{special_name(b, i)}_f{i}.lua"
     for b in range(bursts):
         for i in range(NDISK):
-            files[f"b{b}_f{i}.lua"] = disk_text(i)
+            files[fname(b, i)] = disk_text(i)
     ws = make_workspace(files, emmyrc={"diagnostics": {"diagnosticInterval": 50}})
     srv = Server(ws, sched_seed=sched_seed, sched_max_ms=3)
     desc0 = {"kind": "session", "prop": "C27", "seed": seed, "sched_seed": sched_seed, "bursts": bursts}
@@ -193,7 +217,8 @@ def c27_session(rep, seed, sched_seed, bursts, long=False):
             rep.mismatch({"what": "server did not initialise", "input": desc0})
             return
         for b in range(bursts):
-            uris = [path_uri(os.path.join(ws, f"b{b}_f{i}.lua")) for i in range(NURIS)]
+            uris = [spell_uri(os.path.join(ws, fname(b, i)), SPELLINGS[(b + i) % 3]) for i in range(NURIS)]
+            rep.count("uri_spelling_" + SPELLINGS[b % 3])
             ns = canonical_burst(b, counter) if b < 3 else gen_burst(rng, NURIS, counter, long)
             for x in ns:
                 if "t" in x:
